@@ -28,7 +28,7 @@ import itertools
 
 from sa.canon import Canon, f_show, f_implies, f_equiv, A, f_and, f_not, f_or, f_atoms
 from sa.interp import Interp, C
-from sa.model import AnalysisError
+from sa.model import AnalysisError, canonical_tests
 from . import intervals as iv
 
 GEN_MOD = "nasim.scenarios.generator"
@@ -257,7 +257,7 @@ def check_loops(ctx, chk):
     gcls = ctx.repo.cls(GEN_MOD, "ScenarioGenerator")
     n = 0
     for name, m in gcls.methods.items():
-        for w in [x for x in ast.walk(m.node) if isinstance(x, ast.While)]:
+        for w in [x for x in ast.walk(canonical_tests(m.node)) if isinstance(x, ast.While)]:
             n += 1
             loc = f"{m.module.path}:{w.lineno}"
             cond = ast.unparse(w.test)
@@ -270,9 +270,20 @@ def check_loops(ctx, chk):
             bound_txt = ast.unparse(w.test.comparators[0]) if isinstance(w.test, ast.Compare) \
                 and len(w.test.comparators) == 1 else cond
             if bound_txt in m.params:
-                # name the bound by its position: renaming the parameter is not a new finding
-                bound_txt = f"parameter {m.params.index(bound_txt)} of the method"
-            construct = f"ScenarioGenerator.{name}: while-loop bounded by {bound_txt} [{kind}]" \
+                # name the bound by the public generate() parameter that is passed for it (else by
+                # its position): renaming / reordering the helper's parameters is not a new finding
+                gen = gcls.methods.get("generate")
+                pub = {a_ for call, nm in self_calls(gen) if nm == name
+                       for p_, a_ in arg_map(call, m).items() if p_ == bound_txt} if gen else set()
+                if len(pub) == 1 and next(iter(pub)) in gen.params:
+                    bound_txt = f"generate()'s parameter {next(iter(pub))}"
+                else:
+                    bound_txt = f"parameter {m.params.index(bound_txt)} of the method"
+            # (a loop bounded by a public parameter is identified by that parameter, whatever the
+            # private helper it lives in is called)
+            where = "ScenarioGenerator" if bound_txt.startswith("generate()'s parameter ") \
+                else f"ScenarioGenerator.{name}"
+            construct = f"{where}: while-loop bounded by {bound_txt} [{kind}]" \
                 if kind != "unrecognised" else f"ScenarioGenerator.{name}: while {cond} [{kind}]"
             if kind == "unrecognised":
                 chk.undecided("C15.loop", construct, "the loop is not a counter / retry-until-"
@@ -356,12 +367,24 @@ def classify_while(m, w, cls=None):
         ast.copy_location(neg, g0)
         ast.fix_missing_locations(neg)
         guarded.append(neg)
+    def has_progress(stmts):
+        return any(is_progress(s, prog) for s in ast.walk(ast.Module(body=stmts, type_ignores=[]))
+                   if isinstance(s, ast.stmt))
     for node in ast.walk(ast.Module(body=w.body, type_ignores=[])):
         if isinstance(node, ast.If):
-            if any(is_progress(s, prog) for s in ast.walk(ast.Module(body=node.body,
-                                                                    type_ignores=[]))
-                   if isinstance(s, ast.stmt)):
+            if has_progress(node.body):
                 guarded.append(node)
+            elif has_progress(node.orelse):
+                # progress on the else side: the guard is the negated test
+                neg = ast.If(test=ast.UnaryOp(op=ast.Not(), operand=node.test), body=node.orelse,
+                             orelse=[])
+                if isinstance(node.test, ast.Compare) and len(node.test.ops) == 1 \
+                        and isinstance(node.test.ops[0], ast.In):
+                    neg.test = ast.Compare(left=node.test.left, ops=[ast.NotIn()],
+                                           comparators=node.test.comparators)
+                ast.copy_location(neg, node)
+                ast.fix_missing_locations(neg)
+                guarded.append(neg)
     if top_level_progress:
         return "counter", ""
     if not guarded:
@@ -387,7 +410,8 @@ def classify_while(m, w, cls=None):
                   and ast.unparse(x.func.value) == pool
                   for s in g.body for x in ast.walk(s))
     bound = ast.unparse(t.comparators[0])
-    guard = pool is not None and capacity_guard_before(m.node, w.lineno, pool, bound)
+    guard = pool is not None and capacity_guard_before(canonical_tests(m.node), w.lineno, pool,
+                                                       bound)
     if not guard and pool is not None and cls is not None and pool in m.params \
             and bound in m.params:
         # the loop lives in a helper: the guard may sit in front of every call of the helper
@@ -397,7 +421,7 @@ def classify_while(m, w, cls=None):
                 if name == m.name:
                     am = arg_map(call, m)
                     sites.append(pool in am and bound in am and capacity_guard_before(
-                        caller.node, call.lineno, am[pool], am[bound]))
+                        canonical_tests(caller.node), call.lineno, am[pool], am[bound]))
         guard = bool(sites) and all(sites)
     if removed and guard:
         return "retry-until-fresh, capacity guard", ""
@@ -426,11 +450,44 @@ def is_progress(st, prog):
 
 
 # ------------------------------------------------------------------------------ (d)
+def passed_as(ctx, caller, callee, public):
+    """the callee's own name for the value the caller passes as `public` (private helpers:
+    parameter names and positions are not an interface), or None"""
+    got = {p_ for call, name in self_calls(caller) if name == callee.name
+           for p_, a_ in arg_map(call, callee).items() if a_ == public}
+    return got.pop() if len(got) == 1 else None
+
+
+def probs_helper(ctx, meth, public):
+    """(helper, spec parameter, count parameter) of the method that turns the public
+    `exploit_probs` / `privesc_probs` specification into one probability per action: the callee
+    that receives that specification inside the definition generator - found by what it is passed,
+    not by its name"""
+    gcls = ctx.repo.cls(GEN_MOD, "ScenarioGenerator")
+    gen = ctx.repo.func(GEN_MOD, "ScenarioGenerator.generate")
+    fi = ctx.repo.func(GEN_MOD, f"ScenarioGenerator.{meth}")
+    spec = passed_as(ctx, gen, fi, public) or public
+    for call, name in self_calls(fi):
+        callee = gcls.methods.get(name)
+        if callee is None:
+            continue
+        am = arg_map(call, callee)
+        hit = [p_ for p_, a_ in am.items() if a_ == spec]
+        if len(hit) == 1:
+            rest = [p_ for p_ in callee.params[1:] if p_ != hit[0]]
+            return callee, hit[0], (rest[0] if len(rest) == 1 else None)
+    return None, None, None
+
+
 def check_definitions(ctx, chk):
-    for meth, field, pool, key2, cost_p in (
-            ("_generate_exploits", "service", "G.services", "exploits", "exploit_cost"),
-            ("_generate_privescs", "process", "G.processes", "privescs", "privesc_cost")):
-        fi, ip, s, cn = method_run(ctx, meth, no_inline=("_get_action_probs",))
+    for meth, field, pool, key2, cost_p, probs_p in (
+            ("_generate_exploits", "service", "G.services", "exploits", "exploit_cost",
+             "exploit_probs"),
+            ("_generate_privescs", "process", "G.processes", "privescs", "privesc_cost",
+             "privesc_probs")):
+        ph, _, _ = probs_helper(ctx, meth, probs_p)
+        ph_name = ph.name if ph is not None else "_get_action_probs"
+        fi, ip, s, cn = method_run(ctx, meth, no_inline=(ph_name,))
         defs = [ev for ev in s.events if ev.kind == "store" and ev.data["target"] == "sub"
                 and ev.data["value"][0] == "dictobj" and ip.heap[ev.data["value"][1]]["items"]]
         ok = len(defs) == 1
@@ -442,16 +499,23 @@ def check_definitions(ctx, chk):
         items = {k: cn.show(v) for k, v in ip.heap[ev.data["value"][1]]["items"].items()}
         counter = "exploits_added" if meth == "_generate_exploits" else "privescs_added"
         probs_call = [e for e in s.events if e.kind == "call"
-                      and e.data["fname"].endswith("_get_action_probs")]
+                      and e.data["fname"].endswith("." + ph_name)]
         pc_show = cn.show(probs_call[0].data["result"]) if probs_call else "?"
+        gen = ctx.repo.func(GEN_MOD, "ScenarioGenerator.generate")
+        cost_p = passed_as(ctx, gen, fi, cost_p) or cost_p
         want = {field: f"np.random.choice({pool})", "cost": cost_p}
         for k, w in want.items():
             chk.ob("C15.definitions", f"{meth}: definition['{k}'] = {w}", items.get(k) == w,
                    str(items.get(k)), ev.loc)
         pv = items.get("prob", "")
-        chk.ob("C15.definitions", f"{meth}: definition['prob'] is an element of "
-               "_get_action_probs(count, spec)", bool(probs_call) and pv.startswith(pc_show + "["),
-               pv[:160], ev.loc)
+        if not probs_call:
+            chk.undecided("C15.definitions", f"{meth}: definition['prob'] is an element of the "
+                          "per-action probabilities computed from the specification",
+                          "the helper that receives the probability specification was not found; "
+                          f"definition['prob'] = {pv[:120]}", ev.loc)
+        else:
+            chk.ob("C15.definitions", f"{meth}: definition['prob'] is an element of "
+                   "_get_action_probs(count, spec)", pv.startswith(pc_show + "["), pv[:160], ev.loc)
         osv = items.get("os", "")
         if meth == "_generate_exploits":
             chk.ob("C15.definitions", f"{meth}: definition['os'] drawn from declared OSs or None",
@@ -469,11 +533,13 @@ def check_definitions(ctx, chk):
 
 # ------------------------------------------------------------------------------ (e)
 def check_probs(ctx, chk):
-    fi, ip, s, cn = method_run(ctx, "_get_action_probs")
+    ph, spec_p, count_p = probs_helper(ctx, "_generate_exploits", "exploit_probs")
+    fi, ip, s, cn = method_run(ctx, ph.name if ph is not None else "_get_action_probs")
     from .loaderfacts import extract_guards, closed
     gs = extract_guards(ip, cn, s.events)
     guards = [(closed(g.F, g.loops), g) for g in gs]
-    P = fi.params[2]
+    P = spec_p if ph is not None else fi.params[2]
+    N = count_p if ph is not None and count_p else fi.params[1]
     want_float = f_and([A(f"0.0<{P}"), f_not(A(f"1.0<{P}"))])
     want_list = closed(f_and([A(f"0.0<each({P})"), f_not(A(f"1.0<each({P})"))]), [P])
     okf = any(f_equiv(F, want_float) for F, _ in guards)
@@ -482,13 +548,13 @@ def check_probs(ctx, chk):
            str([f_show(F) for F, _ in guards]), fi.module.path)
     chk.ob("C15.probs", "_get_action_probs: every element of a list specification is guarded to "
            "(0, 1]", okl, "", fi.module.path)
-    lens = any(f_show(F) == f"len({P})=={fi.params[1]}" for F, _ in guards)
+    lens = any(f_show(F) == f"len({P})=={N}" for F, _ in guards)
     chk.ob("C15.probs", "_get_action_probs: a list specification has one entry per action", lens, "",
            fi.module.path)
     # accept side: every rejection guard of the function is one of the documented ones - a
     # specification in the documented domain (None, 'mixed', list of (0,1], float in (0,1]) is
     # never rejected
-    allowed = [want_float, want_list, A(f"len({P})=={fi.params[1]}"),
+    allowed = [want_float, want_list, A(f"len({P})=={N}"),
                A(f"isinstance({P}, float)")]
     for F, g in guards:
         ok_g = any(f_equiv(F, a) for a in allowed)
@@ -541,7 +607,7 @@ def check_probs(ctx, chk):
         return []
     for pc, t in s.returns:
         none_vals += none_branch(t)
-    n_arg = fi.params[1]
+    n_arg = N
     for t in none_vals:
         txt = cn.show(t)
         raw = f"np.random.random_sample({n_arg})"
@@ -598,29 +664,53 @@ def check_counts(ctx, chk):
     ok = False
     detail = "no store to self.subnets"
     if len(st) == 1:
+        # however the list is put together (literal elements, appends, `+` / `+=` of a repeated
+        # element): its parts in order, as (kind, element, count | condition)
+        from .shapes import list_elements
         v = st[0].data["value"]
-        detail = cn.show(v)
         U = f"(({N}-math.ceil(({N}/40)))-math.ceil(({N}/41)))"
-        ok_shape = v[0] == "bin" and v[1] == "+" and v[2][0] == "listobj" and \
-            cn.show(v[3]) == f"([5]*({U}//5))"
-        if ok_shape:
-            h = ip.heap[v[2][1]]
-            elts = [cn.show(e) for e in h["elts"]]
-            apps = [(d[0], [cn.show(a) for a in d[1]], f_show(cn.conj(tuple(
-                c for c in d[2] if c[0] != "fact")))) for d in h["dyn"]]
-            base_ok = elts == ["1"] and apps[:2] == [
-                ("append", [f"math.ceil(({N}/40))"], "TRUE"),
-                ("append", [f"math.ceil(({N}/41))"], "TRUE")]
-            # remainder appended to the *result* list
-            rem = [ev for ev in s.events if ev.kind == "mcall" and ev.data["name"] == "append"
-                   and cn.show(ev.data["args"][0]) == f"({U}%5)"]
-            rem_ok = len(rem) == 1 and f_show(cn.conj(tuple(
-                c for c in rem[0].pc if c[0] != "fact"))) == f"!({U}%5)==0"
-            ok = base_ok and rem_ok and len(apps) == 2
-            detail = f"[{', '.join(elts)}] + appends {apps} + [5]*(u//5) + remainder: {rem_ok}"
-    chk.ob("C15.counts", "_generate_subnets: subnets = [1, dmz, sensitive] + chunks(u, 5) with "
-           "u = num_hosts - dmz - sensitive (div/mod partition => sizes sum to num_hosts)", ok,
-           detail[:400], fi.module.path)
+
+        def parts(t):
+            if t[0] == "bin" and t[1] == "+":
+                a, b = parts(t[2]), parts(t[3])
+                return None if a is None or b is None else a + b
+            if t[0] == "bin" and t[1] == "*":
+                for lst, cnt in ((t[2], t[3]), (t[3], t[2])):
+                    le = list_elements(ip, cn, lst)
+                    if le is not None and len(le) == 1 and not le[0][1] and not le[0][2]:
+                        return [("repeat", cn.show(le[0][0]), cn.show(cnt))]
+                return None
+            le = list_elements(ip, cn, t)
+            if le is None:
+                return None
+            out = []
+            for e, loops, conds in le:
+                if loops:
+                    return None
+                out.append(("one", cn.show(e), f_show(f_and([cn.formula(c) for c in conds]))))
+            return out
+        ps = parts(v)
+        # elements appended to the finished list value
+        late = [ev for ev in s.events if ev.kind == "mcall" and ev.data["name"] == "append"
+                and ev.data["recv"] == v]
+        for ev in late:
+            ps = None if ps is None else ps + [("one", cn.show(ev.data["args"][0]), f_show(cn.conj(
+                tuple(c for c in ev.pc if c[0] != "fact"))))]
+        want = [("one", "1", "TRUE"), ("one", f"math.ceil(({N}/40))", "TRUE"),
+                ("one", f"math.ceil(({N}/41))", "TRUE"), ("repeat", "5", f"({U}//5)"),
+                ("one", f"({U}%5)", f"!({U}%5)==0")]
+        detail = cn.show(v)[:300] if ps is None else str(ps)
+        if ps is None:
+            chk.undecided("C15.counts", "_generate_subnets: subnets = [1, dmz, sensitive] + "
+                          "chunks(u, 5) with u = num_hosts - dmz - sensitive (div/mod partition => "
+                          "sizes sum to num_hosts)", "the list stored into self.subnets is not a "
+                          "concatenation of literal elements, appends and one repeated element: "
+                          + detail, fi.module.path)
+        ok = ps == want
+    if len(st) != 1 or ps is not None:
+        chk.ob("C15.counts", "_generate_subnets: subnets = [1, dmz, sensitive] + chunks(u, 5) with "
+               "u = num_hosts - dmz - sensitive (div/mod partition => sizes sum to num_hosts)", ok,
+               detail, fi.module.path)
     # hosts: one per address of every non-internet subnet
     for meth in ("_generate_uniform_hosts", "_generate_correlated_hosts"):
         fi, ip, s, cn = method_run(ctx, meth, no_inline=(
@@ -653,14 +743,15 @@ def check_counts(ctx, chk):
 
 def counter_pairing(m):
     """while c < n: ... if key not in D: D[key] = ...; c += 1"""
-    ws = [x for x in ast.walk(m.node) if isinstance(x, ast.While)
+    mnode = canonical_tests(m.node)
+    ws = [x for x in ast.walk(mnode) if isinstance(x, ast.While)
           and isinstance(x.test, ast.Compare) and isinstance(x.test.ops[0], ast.Lt)
           and isinstance(x.test.left, ast.Name)]
     for w in ws:
         c = w.test.left.id
-        init = [n for n in ast.walk(m.node) if isinstance(n, ast.Assign)
+        init = [n for n in ast.walk(mnode) if isinstance(n, ast.Assign)
                 and isinstance(n.targets[0], ast.Name) and n.targets[0].id == c]
-        incs = [n for n in ast.walk(m.node) if isinstance(n, ast.AugAssign)
+        incs = [n for n in ast.walk(mnode) if isinstance(n, ast.AugAssign)
                 and isinstance(n.target, ast.Name) and n.target.id == c]
         if len(init) != 1 or not (isinstance(init[0].value, ast.Constant)
                                   and init[0].value.value == 0):
@@ -679,7 +770,7 @@ def counter_pairing(m):
                            and isinstance(s.targets[0], ast.Subscript)
                            and ast.unparse(s.targets[0].value) == d
                            and ast.unparse(s.targets[0].slice) == key]
-                    other_ins = [s for s in ast.walk(m.node) if isinstance(s, ast.Assign)
+                    other_ins = [s for s in ast.walk(mnode) if isinstance(s, ast.Assign)
                                  and isinstance(s.targets[0], ast.Subscript)
                                  and ast.unparse(s.targets[0].value) == d and s not in ins]
                     if len(ins) == 1 and not other_ins:
@@ -689,18 +780,18 @@ def counter_pairing(m):
         return False, f"increment of {c} is not paired with an insertion"
     # the count may be the size of the definitions dict itself: `while len(D) < n` with insertions
     # D[key] = ... only (no deletions) is paired by construction
-    for w in ast.walk(m.node):
+    for w in ast.walk(mnode):
         if isinstance(w, ast.While) and isinstance(w.test, ast.Compare) \
                 and len(w.test.ops) == 1 and isinstance(w.test.ops[0], ast.Lt):
             left = w.test.left
             if isinstance(left, ast.Call) and isinstance(left.func, ast.Name) \
                     and left.func.id == "len" and len(left.args) == 1:
                 d = ast.unparse(left.args[0])
-                removes = [n for n in ast.walk(m.node) if isinstance(n, ast.Call)
+                removes = [n for n in ast.walk(mnode) if isinstance(n, ast.Call)
                            and isinstance(n.func, ast.Attribute)
                            and n.func.attr in ("pop", "popitem", "clear")
                            and ast.unparse(n.func.value) == d] + \
-                          [n for n in ast.walk(m.node) if isinstance(n, ast.Delete)]
+                          [n for n in ast.walk(mnode) if isinstance(n, ast.Delete)]
                 if not removes:
                     return True, ""
                 return False, f"{d} also shrinks inside the generating loop"
@@ -885,7 +976,7 @@ def check_firewall(ctx, chk):
     tests = []
     ok = False
     for f_, r_ in cands:
-        for x in ast.walk(f_.node):
+        for x in ast.walk(canonical_tests(f_.node)):
             if isinstance(x, ast.While):
                 tests.append(f"{f_.name}: {ast.unparse(x.test)}")
                 if re.fullmatch(rf"len\(\w+\) < {re.escape(r_)}", ast.unparse(x.test)):
